@@ -73,7 +73,7 @@ func VC15_SignedUpdateFaults() {
 	signer := vsym.Signer("k1")
 	serial := vsym.BytesN("serial", 2)
 	vsym.Assume(serial[0] != 0)
-	cert := vsym.Cert(signer, vsym.BytesN("cert.raw", 5), vsym.BytesN("issuer", 3), serial)
+	cert := vsym.Cert(signer, serial)
 	rs := &vRecSigner{Signer: signer}
 	err := fs.WriteSignedUpdate(v, vValue(val), rs, cert)
 	if rs.failed {
